@@ -338,7 +338,7 @@ def run(ctx):
     meta = []
     for r in vecs:
         for (nw, ord_) in ((1, 1), (3, 1), (2, 0)) if quick else ((1, 1), (2, 1), (3, 1), (5, 1), (2, 0), (3, 0)):
-            lines.append("seek %d %d %d %d %d %d" % (r["total"], r["ff"], r["b"], nw, ord_, rnd.randrange(1 << 30)))
+            lines.append("seek %d %d %d %d %d %d %d" % (r["total"], r["ff"], r["b"], nw, ord_, rnd.randrange(1 << 30), r["bg"]))
             meta.append((r, nw, ord_))
     runs = split_runs(drive(lines))
     if len(runs) != len(meta):
